@@ -507,7 +507,7 @@ func (w *world) replayPool(ops []string) (verdict string) {
 			w.mp = mempool.VerifNew(w.sdb)
 			mempool.VerifSetEvict(time.Hour, time.Hour)
 			w.best, w.settled = nil, false
-		case "put":
+		case "put", "putn":
 			w.mp.VerifPut(w.wrap(w.txs[atoi(f[3])].GetTx()))
 		case "rm":
 			w.mp.VerifRemoveTx(w.txs[atoi(f[2])].GetTx())
@@ -572,7 +572,11 @@ func classify(err error) string {
 
 func (w *world) doPut(tx *types.Tx, from int, kind string) {
 	id := w.idOf(tx)
-	op := fmt.Sprintf("put %d %d %d %d", from, tx.Body.Nonce, id, amountOf(tx))
+	verb := "put"
+	if _, ok := w.named[string(tx.Hash)]; ok {
+		verb = "putn" // sender field is a name; `from` is the verified address the transaction is filed under
+	}
+	op := fmt.Sprintf("%s %d %d %d %d", verb, from, tx.Body.Nonce, id, amountOf(tx))
 	res, _ := vh.Guard(func() string { return classify(w.mp.VerifPut(w.wrap(tx))) })
 	w.run.Count("put:" + kind + ":" + strings.SplitN(res, ":", 2)[0])
 	w.emit(op, res, res == "ok")
@@ -1010,10 +1014,48 @@ func (w *world) namedSenderRemoval(a int, n, amount uint64, between int) {
 		return classify(err)
 	})
 	w.run.Count("rm:named-sender:" + res)
-	w.known = "C13-removeTx-named-sender"
 	w.emit(op, res, res == "ok")
-	w.known = ""
 }
+
+// The first notification of a reorganisation, step by step (deterministic; an observation, see notes/C13.md):
+// setStateDB re-checks only the accounts named in the block when the block's parent is not the pool's best block.
+// Account 0 had nonce 1 executed on the abandoned branch and holds nonce 2 in the pool; after the notification of
+// the first new-branch block (state nonce of account 0 back to 0) its list is still based on nonce 1.
+func (w *world) reorgWindow() {
+	w.newSession()
+	w.run.Op("new", "ok | "+w.dump(), false)
+	w.ops = append(w.ops, "new")
+	var g [nAcc]acct
+	for i := range g {
+		g[i] = acct{0, 100}
+	}
+	gen := w.mkBlock(nil, nil, nil, 1, &g)
+	w.mp.VerifInit(gen.b)
+	w.best, w.settled = gen, true
+	w.notify(gen, true, "genesis")
+	t1 := w.mkTx(0, 1, 1, 5, 0)
+	a1 := w.mkBlock(gen, []btx{{0, 1, t1}}, nil, 1, nil)
+	w.notify(a1, true, "extend")
+	w.doPut(w.mkTx(0, 1, 2, 5, 0), 0, "window-scenario")
+	b1 := w.mkBlock(gen, []btx{{1, 2, w.mkTx(1, 2, 1, 3, 0)}}, nil, 1, nil)
+	b2 := w.mkBlock(b1, nil, nil, 1, nil)
+	w.notify(b1, false, "reorg-step0")
+	lists, _, _, _, _ := w.observe()
+	for _, v := range lists {
+		if v.acc == 0 && v.base.nonce > b1.st[0].nonce && v.ready > 0 {
+			w.run.Count("observed:reorg-window:fetch-offers-nonce-above-state+1")
+			w.run.Sample(fmt.Sprintf("reorg window: after `%s` account 0 is offered nonce %d, state nonce %d", w.ops[len(w.ops)-1],
+				v.txs[0].GetBody().GetNonce(), b1.st[0].nonce))
+		}
+	}
+	w.genGetPlain()
+	w.doPut(t1, 0, "window-resubmission") // the rolled-back transaction, valid in the new state
+	w.notify(b2, true, "reorg-step1")
+	w.doPut(t1, 0, "window-resubmission")
+	w.genGetPlain()
+}
+
+func (w *world) genGetPlain() { w.genGet() }
 
 // A transaction whose sender field is a name is submitted (filed under its verified address), and later removed
 // through removeTx the way the chain service does for a transaction that timed out in block production
@@ -1436,6 +1478,7 @@ func main() {
 	}
 	// pool level
 	w.safely("session", w.namedSenderMinimal)
+	w.safely("session", w.reorgWindow)
 	for s := 0; s < run.Pick(700, 4000); s++ {
 		n := 60 + w.rng.Intn(120)
 		w.safely("session", func() { w.poolSession(n) })
